@@ -154,7 +154,10 @@ def oracle_c16(impl_lines):
                         cv[k] = {"w": int(t[3]), "h": int(t[4]), "grid": {}}
                     elif t[2] in ("copy", "assign", "move"):
                         src = cv[t[3]]
+                        keep = cv.get(k, {}).get("held") if t[2] == "assign" else None
                         cv[k] = {"w": src["w"], "h": src["h"], "grid": dict(src["grid"])}    # handles are not copied
+                        if keep is not None:
+                            cv[k]["held"] = keep      # a column handle on the target still names that column
                         if t[2] == "move":
                             del cv[t[3]]
                     elif t[2] == "set":
@@ -702,6 +705,8 @@ def oracle_strobj(impl_lines):
                         st[k] = list(st[t[3]]); del st[t[3]]
                     elif op == "appendelem":
                         st[k] = st[k] + elems(t, 3, 1)
+                    elif op == "appendown":
+                        st[k] = st[k] + [st[k][int(t[3])]]
                     elif op == "append":
                         st[k] = st[k] + st[t[3]]
                     elif op == "plus":
